@@ -511,6 +511,10 @@ def _guard_atoms(test, local_names, int_names=(), param_names=None):
 
     def atom(e):
         t = norm(abstract(e))
+        if isinstance(e, ast.Call) and isinstance(e.func, ast.Name):
+            # a named predicate (valid_charge(e, z), isinstance(x, T)) means the same for an argument and for a loop variable
+            import re as _re
+            t = _re.sub(r'\b_L\b', '_', t)
         if t not in atoms:
             atoms.append(t)
         return 'a%d' % atoms.index(t)
